@@ -55,7 +55,7 @@ Lemma send_ctrl : forall now s m,
 Proof.
   intros now s m F. unfold fresh_hdr in F. apply andb_true_iff in F. destruct F as [H34 H43].
   apply negb_true_iff in H34. apply negb_true_iff in H43.
-  unfold send_process, send_process_gen. rewrite H43.
+  unfold send_process. rewrite H43.
   set (m1 := if has_field T_SenderCompID (m_hdr m) then m else add_hdr' sc T_SenderCompID (s_snd s) m).
   set (m2 := if has_field T_TargetCompID (m_hdr m1) then m1 else add_hdr' sc T_TargetCompID (s_tgt s) m1).
   assert (E1 : has_field T_MsgSeqNum (m_hdr m1) = false).
@@ -71,7 +71,7 @@ Proof.
   assert (P : forall s1 : sess, p_kind (s_per s1) = p_kind (s_per s) ->
      let per1 := if p_attached (s_per s1)
                  then p_put_ctrl (if is_admin sc (m_type m) then s_per s1 else p_put (s_per s1) (s_next_send s1) enc)
-                                 (if inc || false then s_next_send s1 + 1 else s_next_send s1) (s_next_recv s1)
+                                 (if inc then s_next_send s1 + 1 else s_next_send s1) (s_next_recv s1)
                  else s_per s1 in
      let s3 := if inc then w_next_send (s_next_send (w_per per1 s1) + 1) (w_per per1 s1) else w_per per1 s1 in
      p_kind (s_per s3) = p_kind (s_per s) /\ strong s3).
@@ -85,7 +85,7 @@ Proof.
     destruct S3 as (A & B & C). split; [rewrite A, KP; exact K1|].
     intro KF. rewrite A in *. rewrite KP in KF. subst per1. unfold p_attached. rewrite KF.
     rewrite file_ctrl_put.
-    - rewrite B, C. rewrite orb_false_r. destruct inc; reflexivity.
+    - rewrite B, C. destruct inc; reflexivity.
     - destruct (is_admin sc (m_type m)); [exact KF|rewrite p_put_kind; exact KF]. }
   destruct (m_eob m).
   - destruct (s_batch s) as [|b0 bt] eqn:BB; destruct (s_closed s) eqn:CL; cbn [negb andb fst snd].
